@@ -44,6 +44,11 @@ type HPACK struct {
 	// COMPRESSION_ERROR on a header that indexed one of them.
 	// https://tools.ietf.org/html/rfc7541#section-6.3
 	pendingSizeUpdate bool
+
+	// minPendingSize is the smallest size set since the peer was last told. If
+	// the size dipped below where it ends up, the dip has to be announced first
+	// (RFC 7541 4.2): the entries evicted on the way down are gone on our side.
+	minPendingSize uint32
 }
 
 func headerFieldsToString(hfs []*HeaderField, indexOffset int) string {
@@ -104,6 +109,10 @@ func (hp *HPACK) Reset() {
 func (hp *HPACK) SetMaxTableSize(size uint32) {
 	if hp.maxTableSize == size && hp.maxTableSizeSettings == size {
 		return
+	}
+
+	if !hp.pendingSizeUpdate || size < hp.minPendingSize {
+		hp.minPendingSize = size
 	}
 
 	hp.maxTableSizeSettings = size
@@ -588,6 +597,10 @@ func (hp *HPACK) AppendHeader(dst []byte, hf *HeaderField, store bool) []byte {
 	// follows the change.
 	if hp.pendingSizeUpdate {
 		hp.pendingSizeUpdate = false
+
+		if hp.minPendingSize < hp.maxTableSize {
+			dst = appendInt(append(dst, 0x20), 5, uint64(hp.minPendingSize))
+		}
 
 		dst = appendInt(append(dst, 0x20), 5, uint64(hp.maxTableSize))
 	}
